@@ -22,7 +22,7 @@ def expression_part(v, pid, tier, seed, model_exe):
     for k, c in enumerate(cases):
         c.idx = k
     mlines = corr.run_model(model_exe, "expr", [c.model_line() for c in cases])
-    usable = [(c, m) for c, m in zip(cases, mlines) if m.startswith("wt=true") and "ILLFORMED" not in m]
+    usable = [(c, m) for c, m in zip(cases, mlines) if m.startswith("wt=true") and "doc=ILLFORMED" not in m]
     out, compared = [], 0
     per_variant = {}
     for var in EXPR_VARIANTS[tier]:
